@@ -150,6 +150,9 @@ pub trait Fam: 'static {
     fn upgrade(w: &Self::W) -> Option<Self::S>;
     fn dangling() -> Self::W;
     fn counts(s: &Self::S) -> (usize, usize);
+    /// std's own `Weak::as_ptr` (not the crate's `RefCnt::as_ptr`): identity of a Weak whose
+    /// target is dead, independent of the raw representation the crate chooses
+    fn weak_ptr(w: &Self::W) -> *const Tr;
 }
 pub struct ArcFam;
 impl Fam for ArcFam {
@@ -171,6 +174,9 @@ impl Fam for ArcFam {
     fn counts(s: &Self::S) -> (usize, usize) {
         (std::sync::Arc::strong_count(s), std::sync::Arc::weak_count(s))
     }
+    fn weak_ptr(w: &Self::W) -> *const Tr {
+        std::sync::Weak::as_ptr(w)
+    }
 }
 pub struct RcFam;
 impl Fam for RcFam {
@@ -191,6 +197,9 @@ impl Fam for RcFam {
     }
     fn counts(s: &Self::S) -> (usize, usize) {
         (std::rc::Rc::strong_count(s), std::rc::Rc::weak_count(s))
+    }
+    fn weak_ptr(w: &Self::W) -> *const Tr {
+        std::rc::Weak::as_ptr(w)
     }
 }
 
@@ -706,6 +715,9 @@ where
                     return Err(format!("an Option<Weak> guard is {} but the model holds {:?}", if g.is_some() { "Some" } else { "None" }, a.map(|a| self.allocs[a].id)));
                 }
                 let want = a.filter(|&a| self.alive_model(a));
+                if let (Some(w), Some(a)) = (&**g, a) {
+                    self.weak_identity(w, a, "an Option<Weak> guard")?;
+                }
                 match (&up, want) {
                     (Some(s), Some(a)) if s.id == self.allocs[a].id => {}
                     (None, None) => {
@@ -719,6 +731,17 @@ where
             (G::W(g), a) => {
                 let up = F::upgrade(g);
                 let want = a.filter(|&a| self.alive_model(a));
+                match a {
+                    Some(a) => self.weak_identity(g, a, "a Weak guard")?,
+                    // the model holds the dangling Weak: the guard must not be a Weak of any
+                    // allocation of the case (dead or alive)
+                    None => {
+                        let p = F::weak_ptr(g);
+                        if let Some(x) = self.allocs.iter().find(|x| x.ptr == p && (x.strong_owned + x.weak_owned + x.sguards + x.wguards > 0 || x.pool.is_some())) {
+                            return Err(format!("a Weak guard loaded while the model holds the dangling Weak is a Weak of allocation id={}", x.id));
+                        }
+                    }
+                }
                 match (&up, want) {
                     (Some(s), Some(a)) if s.id == self.allocs[a].id => {}
                     (None, None) => {
@@ -730,6 +753,15 @@ where
                 }
             }
             (G::S(_), None) => return Err("a strong guard without a value".into()),
+        }
+        Ok(())
+    }
+
+    /// A Weak given out for model allocation `a` is a Weak *of that allocation*, also when the
+    /// target is dead and `upgrade` cannot tell (std's `Weak::as_ptr`, no dereference).
+    fn weak_identity(&self, w: &F::W, a: usize, what: &str) -> Result<(), String> {
+        if F::weak_ptr(w) != self.allocs[a].ptr {
+            return Err(format!("{} that the model says denotes allocation id={} is a Weak of another allocation ({:p} instead of {:p}, target {})", what, self.allocs[a].id, F::weak_ptr(w), self.allocs[a].ptr, if self.alive_model(a) { "alive" } else { "dead" }));
         }
         Ok(())
     }
@@ -812,6 +844,12 @@ where
                 if id != old {
                     std::mem::forget(h);
                     return Err(format!("swap on container {} returned allocation {:?}, the model held {:?}", c, id.map(|a| self.allocs[a].id), old.map(|a| self.allocs[a].id)));
+                }
+                if let (Some(H::W(o)), Some(a)) = (&h, old) {
+                    if let Err(m) = self.weak_identity(o, a, "the Weak returned by swap/rcu") {
+                        std::mem::forget(h);
+                        return Err(m);
+                    }
                 }
                 // the container's reference moved into the returned handle
                 match h {
@@ -960,6 +998,12 @@ where
         if id != self.cval[c] {
             std::mem::forget(h);
             return Err(format!("load_full of container {} gives allocation {:?}, the model holds {:?}", c, id.map(|a| self.allocs[a].id), self.cval[c].map(|a| self.allocs[a].id)));
+        }
+        if let (Some(H::W(o)), Some(a)) = (&h, id) {
+            if let Err(m) = self.weak_identity(o, a, "the Weak returned by load_full") {
+                std::mem::forget(h);
+                return Err(m);
+            }
         }
         if let Some(h) = h {
             let strong = matches!(h, H::S(_));
